@@ -1,7 +1,8 @@
 (* GenEqRender.v — the Renderer's selector / LOD setters and its viewBox-to-pixel helpers (render/render.go),
    translated from the source with the receiver's fields as parameters: translated source = model *)
-From Coq Require Import ZArith Bool List.
-From IVG Require Import SF NumCodec Color Calls Render Arc GoSem Tables GoSrc.
+From Coq Require Import ZArith Bool List Lia ZifyBool.
+From IVG Require Import SF NumCodec Color Calls Render Arc GoSem Tables GoSrc GenEqBase.
+Ltac Zify.zify_post_hook ::= Z.div_mod_to_equations.
 Import ListNotations.
 Local Open Scope Z_scope.
 
@@ -10,9 +11,9 @@ Variable arc : rstate f32 -> bool -> f32 -> f32 -> f32 -> bool -> bool -> f32 ->
 Variable s : rstate f32.
 
 Theorem go_SetCSel_eq v : r_csel (rstep N32 arc s (CSetCSel v)) = go_render_Renderer_SetCSel (r_csel s) v.
-Proof. reflexivity. Qed.
+Proof. first [reflexivity | cbn [rstep upd_regs r_csel]; cbv beta zeta delta [go_render_Renderer_SetCSel]; unwrap; lia]. Qed.
 Theorem go_SetNSel_eq v : r_nsel (rstep N32 arc s (CSetNSel v)) = go_render_Renderer_SetNSel (r_nsel s) v.
-Proof. reflexivity. Qed.
+Proof. first [reflexivity | cbn [rstep upd_regs r_nsel]; cbv beta zeta delta [go_render_Renderer_SetNSel]; unwrap; lia]. Qed.
 Theorem go_SetLOD_eq a b :
   (r_lod0 (rstep N32 arc s (CSetLOD a b)), r_lod1 (rstep N32 arc s (CSetLOD a b))) =
   go_render_Renderer_SetLOD (r_lod0 s) (r_lod1 s) a b.
